@@ -14,6 +14,8 @@ import Restful.Lemmas.CurlyMatch
 import Restful.Lemmas.ReadTemplate
 import Restful.Lemmas.JsrMatch
 import Restful.Lemmas.StateShape
+import Restful.Lemmas.RouteUnique
+import Restful.Lemmas.SelPath
 namespace Restful
 namespace Props
 variable (E : ReEnv)
@@ -87,20 +89,106 @@ theorem C01_jsr (cfg : Config) (hk : cfg.router = .jsr) (hwf : cfg.wfTemplates =
     rw [hk]
     simp only [Spec.templateOf, Service.built_root svc hrt, hts, hseg, Option.isSome_some]
 
-/-- The route that filters and the handler see as selected (its declared `Path`) is the one whose
-    function runs: the model hands `dispatch` the very route object `detectRoute` returned, so the
-    identity in the outcome and the selected path belong to one built route. -/
-theorem C01_selected_is_declared (cfg : Config) (hk : cfg.router = .curly) (req : Req) (s r : Nat) (ps : Params)
-    (h : route E cfg req = .selected s r ps) :
-    ∃ svc ∈ cfg.services, ∃ rt ∈ svc.built, svc.id = s ∧ rt.id = r ∧ rt.path = concatPath svc.rootPath rt.relPath := by
-  unfold route routeTagged at h
-  rw [hk] at h
-  obtain ⟨svc, hsvc, rt, hrt, hs, hr, _⟩ := routeCurly_selected E h
-  refine ⟨svc, hsvc, rt, hrt, hs, hr, ?_⟩
-  unfold Service.built at hrt
-  simp only [List.mem_map] at hrt
-  obtain ⟨rd, _, rfl⟩ := hrt
+/-! ### the witness of the predicate is the route that ran
+
+`Spec.c01Holds` names the route of a `.selected s r ps` outcome by its two ids and is satisfied as
+soon as SOME declaration with these ids admits the request.  On a table whose ids identify
+(`Spec.idsDistinct`: WebService ids pairwise distinct, route ids pairwise distinct within each
+WebService — the driver reports it inside `WF`, the generator numbers services and routes
+consecutively) there is exactly one such declaration, it is the route OBJECT the model's router
+returned (`RouteRan`: the element of the sorted candidate list of the detected service that
+`detectRoute` picked), and the clauses hold of it.  Without the hypothesis the predicate can be
+satisfied by a namesake (`C01_ids_witness`, `C01_service_ids_witness`). -/
+
+/-- both routers in one statement -/
+theorem C01_holds (cfg : Config) (hwf : cfg.wfTemplates = true) (req : Req) :
+    Spec.c01Holds E cfg req (route E cfg req) = true := by
+  cases hk : cfg.router with
+  | curly => exact C01_curly E cfg hk hwf req
+  | jsr => exact C01_jsr E cfg hk hwf req
+
+/-- the predicate, evaluated on an observation `.selected s r ps`, is the admission clause evaluated
+    at THE declaration the ids stand for (`Spec.routeOfIds`); it is false when there is none -/
+theorem C01_predicate_at (cfg : Config) (hids : Spec.idsDistinct cfg = true) (req : Req) (s r : Nat) (ps : Params) :
+    Spec.c01Holds E cfg req (.selected s r ps) =
+      (match Spec.routeOfIds cfg s r with
+       | some (_, rt) => Spec.admitsRequest E cfg.router rt req
+       | none => false) := by
+  rw [Spec.c01Holds_selected, Spec.anyIds_eq hids]
+  cases Spec.routeOfIds cfg s r with
+  | none => rfl
+  | some p => rfl
+
+/-- … in particular no OTHER declaration can satisfy the predicate in the place of the one whose
+    function was observed to run -/
+theorem C01_predicate_unique (cfg : Config) (hids : Spec.idsDistinct cfg = true) (req : Req)
+    (svc : Service) (hsvc : svc ∈ cfg.services) (rt : Route) (hrt : rt ∈ svc.built) (ps : Params) :
+    Spec.c01Holds E cfg req (.selected svc.id rt.id ps) = Spec.admitsRequest E cfg.router rt req := by
+  rw [Spec.c01Holds_selected, Spec.anyIds_of_mem hids _ hsvc hrt]
   rfl
+
+/-- **C01 with a unique witness** (both routers): when the model selects `(s, r)`, exactly one
+    WebService has id `s`, exactly one of its built routes has id `r`, that route is the object the
+    router returned, and IT has the request's method, admits the path, consumes the Content-Type,
+    can satisfy Accept and its conditions hold -/
+theorem C01_holds_unique (cfg : Config) (hwf : cfg.wfTemplates = true) (hids : Spec.idsDistinct cfg = true)
+    (req : Req) (s r : Nat) (ps : Params) (h : route E cfg req = .selected s r ps) :
+    ∃ svc ∈ cfg.services, ∃ rt ∈ svc.built, RouteRan E cfg req svc rt ∧ svc.id = s ∧ rt.id = r ∧
+      (∀ svc' ∈ cfg.services, svc'.id = s → svc' = svc) ∧
+      (∀ svc' ∈ cfg.services, ∀ rt' ∈ svc'.built, svc'.id = s → rt'.id = r → rt' = rt) ∧
+      Spec.admitsRequest E cfg.router rt req = true := by
+  obtain ⟨svc, hsvc, rt, hrt, hran, hs, hr, _, hof, hu1, hu2⟩ := route_selected_unique E hids h
+  refine ⟨svc, hsvc, rt, hrt, hran, hs, hr, hu1, hu2, ?_⟩
+  have hp := C01_holds E cfg hwf req
+  rw [h, C01_predicate_at E cfg hids, hof] at hp
+  exact hp
+
+/-- The ids in the outcome are read off the route object the router returned, for both routers and
+    every table: that object is a built route of a declared WebService, its `Path` is the declared
+    one (root path joined with the route's own path) and its method is the request's.
+    (Replaces the former statement of this name, which was for CurlyRouter only and whose
+    conclusion held of every built route.) -/
+theorem C01_selected_is_declared (cfg : Config) (req : Req) (s r : Nat) (ps : Params)
+    (h : route E cfg req = .selected s r ps) :
+    ∃ svc ∈ cfg.services, ∃ rt ∈ svc.built, RouteRan E cfg req svc rt ∧ svc.id = s ∧ rt.id = r ∧
+      rt.path = concatPath svc.rootPath rt.relPath ∧ req.method = rt.method := by
+  obtain ⟨svc, hsvc, rt, hrt, hran, hs, hr, _⟩ := route_selected_ran E h
+  exact ⟨svc, hsvc, rt, hrt, hran, hs, hr, svc.built_path hrt, (hran.stages E).2.2.2.1⟩
+
+/-- **the selected path is the path of the route that runs** (both routers): on a table whose ids
+    identify, the route `rt` the router returned is the only declaration with the ids of the
+    outcome, its `Path` is the declared one, its method is the request's, and the path the serve
+    model stores in the Request for filters and handler (`Request.SelectedRoutePath()`: looked up by
+    these ids, `Serve.Chain.selPathOf`) is `rt.path` -/
+theorem C01_selected_path (cfg : Config) (hids : Spec.idsDistinct cfg = true) (req : Req) (s r : Nat) (ps : Params)
+    (h : route E cfg req = .selected s r ps) :
+    ∃ svc ∈ cfg.services, ∃ rt ∈ svc.built, RouteRan E cfg req svc rt ∧ svc.id = s ∧ rt.id = r ∧
+      Spec.routeOfIds cfg s r = some (svc, rt) ∧
+      rt.path = concatPath svc.rootPath rt.relPath ∧ req.method = rt.method ∧
+      Serve.Chain.selPathOf cfg s r = rt.path := by
+  obtain ⟨svc, hsvc, rt, hrt, hran, hs, hr, _, hof, _⟩ := route_selected_unique E hids h
+  refine ⟨svc, hsvc, rt, hrt, hran, hs, hr, hof, svc.built_path hrt, (hran.stages E).2.2.2.1, ?_⟩
+  rw [← hs, ← hr]
+  exact Serve.Chain.selPathOf_of_mem hids hsvc hrt
+
+/-- **what every stage sees** (serve model, `Container.Dispatch` and `Container.ServeHTTP`): for a
+    routed request the selected path recorded in every event of the log — container, service and
+    route filters before and after, and the handler; the recover handler has no Request — is the
+    path of the route the router returned, or none; none only inside a Request that a `replace`
+    filter created (`restful.NewRequest`, which carries no selected route): with no such filter in the
+    chain, every event carries the route's path; the outermost stage always does -/
+theorem C01_selected_path_seen (cfg : Serve.Cfg) (hids : Spec.idsDistinct cfg.routing = true)
+    (e : Serve.Entry) (he : e = .dispatch ∨ e = .serveDispatch) (w : Serve.World) (sr : Serve.SReq)
+    (hcp : sr.condPanic = none) (s r : Nat) (ps : Params) (h : route E cfg.routing sr.req = .selected s r ps) :
+    ∃ svc ∈ cfg.routing.services, ∃ rt ∈ svc.built, RouteRan E cfg.routing sr.req svc rt ∧ svc.id = s ∧ rt.id = r ∧
+      (∀ ev ∈ (Serve.serve E cfg e w sr).log, ev.stage ≠ .recover → ev.selPath = rt.path ∨ ev.selPath = []) ∧
+      ((∀ sf ∈ Serve.allFilters cfg s r, sf.2.kind ≠ .replace) →
+        ∀ ev ∈ (Serve.serve E cfg e w sr).log, ev.stage ≠ .recover → ev.selPath = rt.path) ∧
+      (∃ ev rest, (Serve.serve E cfg e w sr).log = ev :: rest ∧ ev.selPath = rt.path) := by
+  obtain ⟨svc, hsvc, rt, hrt, hran, hs, hr, _, _, _, hsel⟩ := C01_selected_path E cfg.routing hids sr.req s r ps h
+  have := Serve.Chain.serve_selPath E cfg e he w sr hcp h
+  rw [hsel] at this
+  exact ⟨svc, hsvc, rt, hrt, hran, hs, hr, this⟩
 
 /-- non-vacuity: a table in the grammar on which a request is routed -/
 example :
@@ -162,10 +250,60 @@ example :
 example : Spec.c01Holds E1 cfgC get42 (route E1 cfgC get42) = true :=
   C01_curly E1 cfgC (by decide) (by decide) get42
 
-/-- `C01_selected_is_declared` on that instance (its hypothesis `route … = .selected …` is met) -/
-example : ∃ svc ∈ cfgC.services, ∃ rt ∈ svc.built, svc.id = 0 ∧ rt.id = 9 ∧
-    rt.path = concatPath svc.rootPath rt.relPath :=
-  C01_selected_is_declared E1 cfgC (by decide) get42 0 9 [("name".toList, "42".toList)] (by decide)
+/-- `C01_selected_is_declared`, `C01_holds_unique`, `C01_selected_path` on that instance, both routers
+    (the hypotheses — ids identify, templates read, `route … = .selected …` — are met) -/
+example : Spec.idsDistinct cfgC = true ∧ Spec.idsDistinct cfgJ = true := by decide
+example := C01_selected_is_declared E1 cfgC get42 0 9 [("name".toList, "42".toList)] (by decide)
+example := C01_selected_is_declared E1 cfgJ get42 0 9 [("name".toList, "42".toList)] (by decide)
+example := C01_holds_unique E1 cfgC (by decide) (by decide) get42 0 9 [("name".toList, "42".toList)] (by decide)
+example := C01_holds_unique E1 cfgJ (by decide) (by decide) post42 0 10 [("id".toList, "42".toList)] (by decide)
+example := C01_selected_path E1 cfgC (by decide) get42 0 9 [("name".toList, "42".toList)] (by decide)
+example := C01_selected_path E1 cfgJ (by decide) get42 0 9 [("name".toList, "42".toList)] (by decide)
+
+/-- the declaration the ids (0, 9) stand for, and the path stored for filters and handler -/
+example :
+    (Spec.routeOfIds cfgC 0 9).map (fun p => (p.1.id, p.2.id, p.2.path)) = some (0, 9, "/users/{name}".toList) ∧
+    Serve.Chain.selPathOf cfgC 0 9 = "/users/{name}".toList ∧ Spec.routeOfIds cfgC 0 99 = none ∧
+    Spec.routeOfIds cfgC 1 9 = none := by
+  decide
+
+/-- `C01_predicate_at` / `C01_predicate_unique` on that instance: the predicate on the observation
+    "route 8 ran" is the admission clause of route 8 (`/me`), which is false for `/users/42` -/
+example : Spec.c01Holds E1 cfgC get42 (.selected 0 8 []) = false := by
+  rw [C01_predicate_at E1 cfgC (by decide)]
+  decide
+
+/-- the serve model on that table: a container filter that passes on, a service filter that is an
+    adapted middleware, a route filter (route 9: passes on; route 7: replaces the Request), the handler -/
+def scfg : Serve.Cfg :=
+  { routing := cfgC
+    cfilters := [{ id := 1, pre := [], kind := .pass, post := [] }]
+    svcs := [{ id := 0, filters := [{ id := 2, pre := [], kind := .middle, post := [] }] }]
+    routes := [{ id := 9, filters := [{ id := 3, pre := [], kind := .pass, post := [] }], script := [.write "x".toList] },
+               { id := 7, filters := [{ id := 4, pre := [], kind := .replace, post := [] }], script := [.write "y".toList] }] }
+
+def sget42 : Serve.SReq := { req := get42 }
+def sget42' : Serve.SReq := { req := { get42 with conds := [false] } }
+
+/-- `C01_selected_path_seen` on that instance: through route 9 (no `replace` filter) every stage sees
+    `/users/{name}`; through route 7 the stages outside the `replace` filter see `/users/{id:[0-9]+}`
+    and the handler, inside the new Request, sees none -/
+example := C01_selected_path_seen E1 scfg (by decide) .dispatch (.inl rfl) {} sget42 rfl 0 9
+  [("name".toList, "42".toList)] (by decide)
+example := C01_selected_path_seen E1 scfg (by decide) .serveDispatch (.inr rfl) {} sget42' rfl 0 7
+  [("id".toList, "42".toList)] (by decide)
+example :
+    (Serve.serve E1 scfg .dispatch {} sget42).log.map (fun ev => (ev.stage, ev.post, ev.selPath)) =
+      [ (.cfilter 1, false, "/users/{name}".toList), (.sfilter 2, false, "/users/{name}".toList),
+        (.rfilter 3, false, "/users/{name}".toList), (.handler 9, false, "/users/{name}".toList),
+        (.rfilter 3, true, "/users/{name}".toList), (.sfilter 2, true, "/users/{name}".toList),
+        (.cfilter 1, true, "/users/{name}".toList) ] ∧
+    (Serve.serve E1 scfg .dispatch {} sget42').log.map (fun ev => (ev.stage, ev.post, ev.selPath)) =
+      [ (.cfilter 1, false, "/users/{id:[0-9]+}".toList), (.sfilter 2, false, "/users/{id:[0-9]+}".toList),
+        (.rfilter 4, false, "/users/{id:[0-9]+}".toList), (.handler 7, false, []),
+        (.rfilter 4, true, "/users/{id:[0-9]+}".toList), (.sfilter 2, true, "/users/{id:[0-9]+}".toList),
+        (.cfilter 1, true, "/users/{id:[0-9]+}".toList) ] := by
+  decide
 
 /-- the hypotheses of `C01_jsr` hold on the same services, and a route function runs -/
 example :
@@ -199,10 +337,75 @@ example :
     Spec.c01Holds E1 cfgJ { get42 with path := "/users/bob".toList } (.selected 0 7 [("id".toList, "bob".toList)]) = false := by
   decide
 
+/-! #### why `idsDistinct` is needed -/
+
+/-- two routes of one WebService share id 7: `/me` and `/{id}` -/
+def cfgDup : Config := { router := .curly, services :=
+  [ { id := 0, root := "/users".toList, routes := [ rd 7 "GET" "/me" [] [] [], rd 7 "GET" "/{id}" [] [] [] ] } ] }
+
+/-- two WebServices share id 0 (route ids are distinct within each: `routeIdsDistinct` holds) -/
+def cfgDupSvc : Config := { router := .curly, services :=
+  [ { id := 0, root := "/a".toList, routes := [ rd 1 "GET" "/x" [] [] [] ] },
+    { id := 0, root := "/b".toList, routes := [ rd 1 "GET" "/y" [] [] [] ] } ] }
+
 end C01Example
+
+/-
+Statement asked for (false of the model — and of the code, whose stages' view of the selected path
+the C06/C01 streams compare with the model's):
+  theorem C01_selected_path_seen_all : route E cfg.routing sr.req = .selected s r ps →
+      ∀ ev ∈ (Serve.serve E cfg e w sr).log, ev.selPath = (the selected route).path
+A filter that hands on a NEW Request (`restful.NewRequest`: kind `replace`) hands on one without a
+selected route; the recover handler has no Request at all.  `C01_selected_path_seen` is the
+statement with exactly these two exceptions; the witness for the first: -/
+
+/-- GET /users/42 (If-condition false) runs route 7 behind a route filter that replaces the Request:
+    the router selected `/users/{id:[0-9]+}`, the filters outside see that path, the handler sees none -/
+theorem C01_selected_path_replace_witness :
+    Spec.idsDistinct C01Example.scfg.routing = true ∧
+    route C01Example.E1 C01Example.scfg.routing C01Example.sget42'.req = .selected 0 7 [("id".toList, "42".toList)] ∧
+    Serve.Chain.selPathOf C01Example.scfg.routing 0 7 = "/users/{id:[0-9]+}".toList ∧
+    ((Serve.serve C01Example.E1 C01Example.scfg .dispatch {} C01Example.sget42').log.filter
+      (fun ev => ev.stage == .handler 7)).map (·.selPath) = [[]] ∧
+    ((Serve.serve C01Example.E1 C01Example.scfg .dispatch {} C01Example.sget42').log.filter
+      (fun ev => ev.stage == .rfilter 4)).map (·.selPath) = ["/users/{id:[0-9]+}".toList, "/users/{id:[0-9]+}".toList] := by
+  decide
+
+/-- without `idsDistinct` the predicate can be satisfied by a namesake: the table is well formed,
+    the observation says "function 7 of service 0 ran" for `GET /users/42`, the first declaration
+    with these ids (`/users/me`) does not admit the request, and the predicate holds all the same
+    because the second declaration with id 7 does -/
+theorem C01_ids_witness :
+    C01Example.cfgDup.wfTemplates = true ∧ Spec.idsDistinct C01Example.cfgDup = false ∧
+    Spec.c01Holds C01Example.E1 C01Example.cfgDup { method := "GET".toList, path := "/users/42".toList } (.selected 0 7 []) = true ∧
+    (Spec.routeOfIds C01Example.cfgDup 0 7).map (fun p => (p.2.path,
+      Spec.admitsRequest C01Example.E1 .curly p.2 { method := "GET".toList, path := "/users/42".toList })) =
+        some ("/users/me".toList, false) := by
+  decide
+
+/-- `Spec.routeIdsDistinct` (route ids distinct within each WebService, the hypothesis of C18) is too
+    weak for this purpose: two WebServices may share an id -/
+theorem C01_service_ids_witness :
+    C01Example.cfgDupSvc.wfTemplates = true ∧ Spec.routeIdsDistinct C01Example.cfgDupSvc = true ∧
+    Spec.idsDistinct C01Example.cfgDupSvc = false ∧
+    Spec.c01Holds C01Example.E1 C01Example.cfgDupSvc { method := "GET".toList, path := "/b/y".toList } (.selected 0 1 []) = true ∧
+    (Spec.routeOfIds C01Example.cfgDupSvc 0 1).map (fun p => (p.2.path,
+      Spec.admitsRequest C01Example.E1 .curly p.2 { method := "GET".toList, path := "/b/y".toList })) =
+        some ("/a/x".toList, false) := by
+  decide
 
 /-! The frame condition (Lemmas/StateShape.lean): the code has exactly the state this property's model
     accounts for — no further package-level variable, struct type or field; constants as modelled. -/
+-- also: Restful.route_selected_ran
+-- also: Restful.route_of_ran
+-- also: Restful.RouteRan_unique
+-- also: Restful.route_selected_unique
+-- also: Restful.Spec.anyIds_eq
+-- also: Restful.Spec.routeOfIds_of_mem
+-- also: Restful.Serve.Chain.selPathOf_of_mem
+-- also: Restful.Serve.Chain.chainLog_selPath
+-- also: Restful.Serve.Chain.chainLog_selPath_eq
+-- also: Restful.Serve.Chain.serve_selPath
 -- also: Restful.StateShape.globals_shape
 -- also: Restful.StateShape.consts_shape
 -- also: Restful.StateShape.routing_shape
